@@ -161,14 +161,24 @@ func rotatedCounterBound(idx, x ssa.Value) (string, bool) {
 			return "", false
 		}
 		bo, isBin := iff.Cond.(*ssa.BinOp)
-		if !isBin || bo.Op != token.LSS || !lenBoundOf(bo.Y, x) {
+		if !isBin {
 			return "", false
 		}
 		if k, isK := constInt(e); isK && k == 0 {
-			if z, isZ := constInt(bo.X); isZ && z == 0 {
+			// the entry test `0 < len(x)` (read with its constant on either side)
+			if z, isZ := constInt(bo.X); isZ && z == 0 && bo.Op == token.LSS && lenBoundOf(bo.Y, x) {
 				okInit = true
 			}
+			if z, isZ := constInt(bo.Y); isZ && z == 0 && bo.Op == token.GTR && lenBoundOf(bo.X, x) {
+				okInit = true
+			}
+			if !okInit {
+				return "", false
+			}
 			continue
+		}
+		if bo.Op != token.LSS || !lenBoundOf(bo.Y, x) {
+			return "", false
 		}
 		inc, isInc := e.(*ssa.BinOp)
 		if isInc && inc.Op == token.ADD && inc.X == ssa.Value(phi) && bo.X == ssa.Value(inc) {
